@@ -9,3 +9,4 @@ pub use tov::ToVal;
 pub mod run;
 pub mod explore;
 pub mod body;
+pub mod shape;
